@@ -74,6 +74,10 @@ def generate(rng, i):
         # fault: the transmitter is handed one more event after the environment was built (before some reset)
         resets = [j for j, op in enumerate(script) if op["op"] == "reset"]
         script.insert(rng.choice(resets), {"op": "late_add", "env": 0})
+    if rng.random() < 0.08 and len(env["grid"]) >= 2:
+        # error path: a refused attempt to build another environment on the same transmitter (latency >= smallest gap)
+        pos = rng.randrange(len(script) + 1)
+        script.insert(pos, {"op": "bad_env", "env": 0, "factor": rng.choice([1.0, 1.5, 10.0])})
     return {"kind": "epi", "envs": [env], "clock0": "1999-01-01T00:00:00", "script": script, "prng": rng.randrange(2 ** 31)}
 
 
